@@ -137,6 +137,146 @@ fn pool_defects(s: &Styles, nb: i32, builtins: &[String]) -> (bool, bool, bool) 
     (shadow, dangling, ids.len() != n)
 }
 
+// ---- the style layer: every order of row / column attribute operations before a styled read-back ----
+// line:  L R C  cells n (r c i)*  rows n (r height cf ch s hidden)*  cols n (min max width custom hidden style+1)*
+//        ops n (kind a b)*  probes n (r c)*
+// kinds: 0 cell-style r c i (b packs c*10+i) | 1 row style r i | 2 column style c i | 3 row height r h | 4 row hidden r b
+//        | 5 delete row style r | 6 column width c w | 7 column hidden c b | 8 delete column style c
+// observation per op: ok, then per probe get_cell_style_index and get_cell_style_or_none+1, then
+// get_row_style(R)+1 and get_column_style(C)+1
+#[derive(Clone, Copy, PartialEq, Debug)]
+struct LOp { kind: u8, a: i32, b: i64 }
+const LNAME: [&str; 9] = ["set_cell_style", "set_row_style", "set_column_style", "set_row_height", "set_row_hidden", "delete_row_style", "set_column_width", "set_column_hidden", "delete_column_style"];
+
+struct LayerCase<'a> { cells: &'a [(i32, i32, i32)], rows: &'a [Row], cols: &'a [Col], r: i32, c: i32, probes: &'a [(i32, i32)] }
+
+fn layer_styles() -> Vec<Style> {
+    let mut s1 = Style::default(); s1.font.b = true;
+    let mut s2 = Style::default(); s2.font.i = true; s2.num_fmt = "0.00".to_string();
+    vec![Style::default(), s1, s2]
+}
+
+fn run_layer(lc: &LayerCase, ops: &[LOp], cs: &mut Cases, or: &mut Oracle, oracle_on: bool) {
+    let styles = layer_styles();
+    let mut m = Model::new_empty("c30l", "en", "UTC", "en").unwrap();
+    for (k, s) in styles.iter().enumerate().skip(1) { assert_eq!(m.workbook.styles.create_new_style(s) as usize, k); }
+    let sidx = |s: &Style| styles.iter().position(|x| x == s).map(|p| p as i64).unwrap_or(-9);
+    // occupied cells: a value typed into the cell, then (when not 0) a style of its own
+    for &(r, c, i) in lc.cells {
+        m.set_user_input(0, r, c, "x".to_string()).unwrap();
+        if i != 0 { m.set_cell_style(0, r, c, &styles[i as usize]).unwrap(); }
+    }
+    m.workbook.worksheets[0].rows = lc.rows.to_vec();
+    m.workbook.worksheets[0].cols = lc.cols.to_vec();
+    // reference reading of the property: the last explicit style assignment to the row / column counts
+    let mut row_assigned: Option<i64> = lc.rows.iter().find(|x| x.r == lc.r).and_then(|x| if x.custom_format { Some(x.s as i64) } else { None });
+    let mut col_assigned: std::collections::HashMap<i32, Option<i64>> = Default::default();
+    let col_initial = |c: i32| lc.cols.iter().find(|d| d.min <= c && c <= d.max).and_then(|d| d.style.map(|x| x as i64));
+    let mut own: std::collections::HashMap<(i32, i32), i64> = lc.cells.iter().map(|&(r, c, i)| ((r, c), i as i64)).collect();
+    let mut line = format!("L {} {} cells {}", lc.r, lc.c, lc.cells.len());
+    for &(r, c, i) in lc.cells { line.push_str(&format!(" {r} {c} {i}")); }
+    line.push_str(&format!(" rows {}", lc.rows.len()));
+    for x in lc.rows { line.push_str(&format!(" {} {} {} {} {} {}", x.r, x.height as i64, x.custom_format as i64, x.custom_height as i64, x.s, x.hidden as i64)); }
+    line.push_str(&format!(" cols {}", lc.cols.len()));
+    for d in lc.cols { line.push_str(&format!(" {} {} {} {} {} {}", d.min, d.max, d.width as i64, d.custom_width as i64, d.hidden as i64, d.style.map(|x| x + 1).unwrap_or(0))); }
+    line.push_str(&format!(" ops {}", ops.len()));
+    for o in ops { line.push_str(&format!(" {} {} {}", o.kind, o.a, o.b)); }
+    line.push_str(&format!(" probes {}", lc.probes.len()));
+    for &(r, c) in lc.probes { line.push_str(&format!(" {r} {c}")); }
+    let mut obs: Vec<String> = vec![];
+    for (n, o) in ops.iter().enumerate() {
+        let res = match o.kind {
+            0 => m.set_cell_style(0, o.a, (o.b / 10) as i32, &styles[(o.b % 10) as usize]),
+            1 => m.set_row_style(0, o.a, &styles[o.b as usize]),
+            2 => m.set_column_style(0, o.a, &styles[o.b as usize]),
+            3 => m.set_row_height(0, o.a, o.b as f64),
+            4 => m.set_row_hidden(0, o.a, o.b != 0),
+            5 => m.delete_row_style(0, o.a),
+            6 => m.set_column_width(0, o.a, o.b as f64),
+            7 => m.set_column_hidden(0, o.a, o.b != 0),
+            _ => m.delete_column_style(0, o.a),
+        };
+        if res.is_ok() {
+            match o.kind {
+                0 => { own.insert((o.a, (o.b / 10) as i32), o.b % 10); }
+                1 if o.a == lc.r => row_assigned = Some(o.b),
+                5 if o.a == lc.r => row_assigned = None,
+                2 => { col_assigned.insert(o.a, Some(o.b)); }
+                8 => { col_assigned.insert(o.a, None); }
+                _ => {}
+            }
+        }
+        obs.push(format!("{}", res.is_ok() as i64));
+        for &(r, c) in lc.probes {
+            let idx = m.get_cell_style_index(0, r, c).map(|x| x as i64).unwrap_or(-1);
+            let cell_own = match m.get_cell_style_or_none(0, r, c) { Ok(Some(s)) => sidx(&s) + 1, Ok(None) => 0, Err(_) => -1 };
+            obs.push(format!("{} {}", idx, cell_own));
+            if oracle_on && n + 1 == ops.len() {
+                // ---- oracle: the style read through the cell getters -----------------------------------
+                or.checked += 1;
+                let col_style = col_assigned.get(&c).cloned().unwrap_or_else(|| col_initial(c));
+                let expect = if let Some(&i) = own.get(&(r, c)) { i }
+                             else if r == lc.r && row_assigned.is_some() { row_assigned.unwrap() }
+                             else { col_style.unwrap_or(0) };
+                let got = m.get_style_for_cell(0, r, c).map(|s| sidx(&s)).unwrap_or(-1);
+                let exp_own = own.get(&(r, c)).map(|i| i + 1).unwrap_or(0);
+                if got != expect || cell_own != exp_own {
+                    let class = if got != expect && own.get(&(r, c)).is_none() && r == lc.r && row_assigned == Some(0) && col_style.unwrap_or(0) != 0 && got == col_style.unwrap_or(0) {
+                        "row_default_style_falls_through_to_column_style".to_string()
+                    } else { format!("layer:{}:{}", LNAME[o.kind as usize], if own.contains_key(&(r, c)) { "occupied_cell" } else { "empty_cell" }) };
+                    or.fail(&class, json!({"case": line, "probe": [r, c]}), format!("get_style_for_cell reads style {got}, expected {expect}; get_cell_style_or_none reads {cell_own}, expected {exp_own}"));
+                }
+            }
+        }
+        let raw = match m.get_row_style(0, lc.r) { Ok(Some(s)) => sidx(&s) + 1, Ok(None) => 0, Err(_) => -1 };
+        let cst = match m.get_column_style(0, lc.c) { Ok(Some(s)) => sidx(&s) + 1, Ok(None) => 0, Err(_) => -1 };
+        obs.push(format!("{} {}", raw, cst));
+        if oracle_on && n + 1 == ops.len() {
+            or.checked += 1;
+            if o.kind == 1 && o.a == lc.r && res.is_ok() && raw != o.b + 1 { or.fail("layer:set_row_style:get_row_style", json!({"case": line}), format!("get_row_style reads {raw}, expected {}", o.b + 1)); }
+            if o.kind == 2 && o.a == lc.c && res.is_ok() && cst != o.b + 1 { or.fail("layer:set_column_style:get_column_style", json!({"case": line}), format!("get_column_style reads {cst}, expected {}", o.b + 1)); }
+        }
+    }
+    cs.case(&line, &obs.join(" "));
+}
+
+fn layer_sweep(cs: &mut Cases, or: &mut Oracle, thorough: bool) -> u64 {
+    let (r, c) = (3, 4);
+    let cells = [(3, 2, 0), (3, 5, 2), (9, 4, 0), (9, 6, 1)];
+    let probes = [(3, 7), (3, 2), (3, 5), (3, 4), (8, 4), (9, 4), (9, 6), (8, 7)];
+    let row_ops = [LOp { kind: 3, a: r, b: 50 }, LOp { kind: 4, a: r, b: 1 }, LOp { kind: 4, a: r, b: 0 }, LOp { kind: 1, a: r, b: 1 }, LOp { kind: 5, a: r, b: 0 }, LOp { kind: 1, a: r, b: 0 }, LOp { kind: 1, a: r, b: 2 }];
+    let col_ops = [LOp { kind: 6, a: c, b: 45 }, LOp { kind: 7, a: c, b: 1 }, LOp { kind: 7, a: c, b: 0 }, LOp { kind: 2, a: c, b: 1 }, LOp { kind: 8, a: c, b: 0 }, LOp { kind: 2, a: c, b: 0 }, LOp { kind: 2, a: c, b: 2 }];
+    let layouts: Vec<(Vec<Row>, Vec<Col>)> = vec![
+        (vec![], vec![]),
+        // imported-like: the row carries s without custom_format, the column lies inside a styled 5-column descriptor
+        (vec![Row { r: 3, height: 32.0, custom_format: false, custom_height: true, s: 2, hidden: false }],
+         vec![Col { min: 2, max: 6, width: 5.0, custom_width: true, hidden: false, style: Some(1) }]),
+        // a styled hidden row over a hidden unstyled column
+        (vec![Row { r: 3, height: 16.0, custom_format: true, custom_height: false, s: 1, hidden: true }],
+         vec![Col { min: 4, max: 4, width: 10.0, custom_width: false, hidden: true, style: None }]),
+    ];
+    let mut n = 0u64;
+    fn rec(depth: usize, alpha: &[LOp], ops: &mut Vec<LOp>, f: &mut dyn FnMut(&[LOp])) {
+        if !ops.is_empty() { f(ops); }
+        if depth == 0 { return; }
+        for &o in alpha { ops.push(o); rec(depth - 1, alpha, ops, f); ops.pop(); }
+    }
+    for (rows, cols) in &layouts {
+        let lc = LayerCase { cells: &cells, rows, cols, r, c, probes: &probes };
+        // every sequence of up to 4 (thorough 5) row operations; every one of up to 4 (5) column operations:
+        // each sequence is a case and its LAST operation is read back through all getters, so every
+        // pair / triple of operations precedes every styled read-back
+        let d = if thorough { 5 } else { 4 };
+        rec(d, &row_ops, &mut vec![], &mut |ops| { run_layer(&lc, ops, cs, or, true); n += 1; });
+        rec(d, &col_ops, &mut vec![], &mut |ops| { run_layer(&lc, ops, cs, or, true); n += 1; });
+        // rows and columns interleaved, plus a cell of the row / column getting its own style
+        let mut mixed: Vec<LOp> = row_ops.iter().chain(col_ops.iter()).cloned().collect();
+        mixed.push(LOp { kind: 0, a: 3, b: 71 }); mixed.push(LOp { kind: 0, a: 8, b: 42 });
+        rec(if thorough { 4 } else { 3 }, &mixed, &mut vec![], &mut |ops| { run_layer(&lc, ops, cs, or, true); n += 1; });
+    }
+    n
+}
+
 fn main() {
     let a = Args::parse();
     let nb = get_new_num_fmt_index(&[]);
@@ -162,6 +302,8 @@ fn main() {
             other => or.fail("builtin_format_roundtrip", json!({"id": i, "code": code}), format!("get_default_num_fmt_id = {:?}", other)),
         }
     }
+
+    let layer_cases = layer_sweep(&mut cs, &mut or, a.thorough);
 
     let nhist = if a.thorough { 1500 } else { 60 };
     for hix in 0..nhist {
@@ -278,7 +420,7 @@ fn main() {
         cs.case(&line, &o);
     }
     cs.finish(json!({
-        "distribution": {"histories": nhist, "assignments": assignments, "cells": by_kind[0], "rows": by_kind[1], "columns": by_kind[2], "distinct_styles": distinct,
+        "distribution": {"layer_order_cases": layer_cases, "histories": nhist, "assignments": assignments, "cells": by_kind[0], "rows": by_kind[1], "columns": by_kind[2], "distinct_styles": distinct,
             "styles_with_nan_tint": nan_styles, "initial_pools_well_formed": n_wf, "initial_pools_shadowing_builtin_id": n_shadow, "initial_pools_dangling_id": n_dangling, "initial_pools_duplicate_id": n_dup,
             "builtin_formats": builtins.len(), "font_tokens": t.fo.v.len(), "fill_tokens": t.fi.v.len(), "border_tokens": t.bo.v.len(), "alignment_tokens": t.al.v.len()},
         "assignments": assignments,
